@@ -168,6 +168,15 @@ def run(chk):
                 sq = seq if (secret is None or thr is None) else [(i, d[:9000], k) for i, d, k in seq]
                 combos.append((thr, thr is not None, sq, secret))
     writer_side(chk, Raw, combos)
+    # frames stay whole when several threads write (queued and forced writes, a disconnect) under compression and the cipher:
+    # a sample of C12's explored schedules, judged here only on what C01 states - the wire parses into the packets written
+    import c12
+    for progs in ([[('q', 1), ('q', 2), ('q', 3)], [('f', 4), ('f', 5)]], [[('f', 1), ('q', 2)], [('f', 3), ('q', 4)], [('q', 5), ('f', 6)]], [[('q', 1), ('f', 2), ('q', 3)], [('q', 4), ('q', 5), ('d', False)]]):
+        for comp, secret in ((None, None), (16, None), (0, bytes(range(16)))):
+            for _ in range(60 if th else 14):
+                run_ = c12.Run(progs, comp, secret).execute(c12.random_policy(rng, rng.choice([0.3, 0.6])))
+                chk.count('writers', [progs, comp, secret is not None, [d[2] for d in run_.decisions]], run_.preempt >= 1)
+                c12.check_run(chk, run_, 'writers')
     reader_side(chk, C, Raw, Conn, combos, rng, th)
     chk.assumptions += ['zlib is library code: in the model inflate/deflate are a table computed by the harness with Python zlib (the theorems hold for every codec with inflate(deflate x) = x)',
                         'BytesIO / select / the kernel socket layer are replaced by the simulated transport: a read returns 1..n bytes or, at end of stream, none']
